@@ -130,3 +130,20 @@ Definition sqrt (x : el) : sqrt_out :=
 (* utils.BigIntArrayToElementArray / ElementArrayToBigIntArray *)
 Definition BigIntArrayToElementArray (bi : list Z) : list el := map setBigInt bi.
 Definition ElementArrayToBigIntArray (e : list el) : list Z := map toBigIntRegular e.
+
+(* func (z *Element) Bit(i uint64) uint64: bit i of the limbs AS STORED (the Go
+   documentation leaves the conversion from Montgomery form to the caller) *)
+Definition len64 (x : Z) : Z := if x =? 0 then 0 else Z.log2 x + 1.   (* bits.Len64 *)
+Definition bit (z : el) (i : Z) : Z :=
+  let '(z0, z1, z2, z3) := z in
+  let j := i / 64 in
+  if j >=? 4 then 0
+  else let w := if j =? 0 then z0 else if j =? 1 then z1 else if j =? 2 then z2 else z3 in
+       (w / 2 ^ (i mod 64)) mod 2.
+(* func (z *Element) BitLen() int *)
+Definition bitLen (z : el) : Z :=
+  let '(z0, z1, z2, z3) := z in
+  if negb (z3 =? 0) then 192 + len64 z3
+  else if negb (z2 =? 0) then 128 + len64 z2
+  else if negb (z1 =? 0) then 64 + len64 z1
+  else len64 z0.
